@@ -91,8 +91,24 @@ class Finder(ast.NodeVisitor):
         if isinstance(node.value, ast.Constant) and isinstance(node.value.value, str):
             return  # docstring
         if isinstance(node.value, ast.Call) and isinstance(node.value.func, ast.Attribute) and isinstance(node.value.func.value, ast.Name) \
-                and node.value.func.value.id in ("_logger", "logging"):
+                and node.value.func.value.id in ("_logger", "logging", "warnings"):
             return
+        if isinstance(node.value, ast.Call):
+            s, e = self.span(node)
+            self.out.append((s, e, "pass", "call statement removed: %s" % self.raw[s:e].decode()[:40].replace("\n", " "), node.lineno))
+        self.generic_visit(node)
+
+    def visit_Break(self, node):
+        s, e = self.span(node)
+        self.out.append((s, e, "pass", "break removed", node.lineno))
+
+    def visit_Continue(self, node):
+        s, e = self.span(node)
+        self.out.append((s, e, "pass", "continue removed", node.lineno))
+
+    def visit_IfExp(self, node):
+        s, e = self.span(node.test)
+        self.out.append((s, e, "(not (%s))" % self.raw[s:e].decode(), "conditional expression swapped", node.lineno))
         self.generic_visit(node)
 
     def visit_Raise(self, node):
@@ -122,6 +138,12 @@ class Finder(ast.NodeVisitor):
         self.generic_visit(node)
 
     def visit_BoolOp(self, node):
+        if len(node.values) == 2:
+            s, e = self.span(node)
+            ls, le = self.span(node.values[0])
+            rs, re_ = self.span(node.values[1])
+            self.out.append((s, e, "(" + self.raw[ls:le].decode() + ")", "boolean operation: left operand only", node.lineno))
+            self.out.append((s, e, "(" + self.raw[rs:re_].decode() + ")", "boolean operation: right operand only", node.lineno))
         old, new = ("and", "or") if isinstance(node.op, ast.And) else ("or", "and")
         for a, b in zip(node.values, node.values[1:]):
             self.between(self.span(a)[1], self.span(b)[0], old, new, "%s -> %s" % (old, new), node.lineno)
@@ -142,6 +164,18 @@ class Finder(ast.NodeVisitor):
             self.out.append((s, e, "(%s + 1)" % self.raw[s:e].decode(), "%s -> +1" % node.value, node.lineno))
 
     def visit_Call(self, node):
+        if isinstance(node.func, ast.Name) and node.func.id == "sorted" and len(node.args) == 1:
+            s, e = self.span(node.func)
+            self.out.append((s, e, "list", "sorted -> list%s" % (" (key dropped)" if node.keywords else ""), node.lineno))
+            if node.keywords:
+                ks, _ = self.span(node.keywords[0].value)
+                a_end = self.span(node.args[0])[1]
+                _, ce = self.span(node)
+                self.out.append((a_end, ce - 1, "", "sorted: keywords dropped", node.lineno))
+        if isinstance(node.func, ast.Attribute) and node.func.attr in ("lower", "upper", "strip", "resolve", "copy") and not node.args and not node.keywords:
+            vs, ve = self.span(node.func.value)
+            _, ce = self.span(node)
+            self.out.append((ve, ce, "", ".%s() removed" % node.func.attr, node.lineno))
         if isinstance(node.func, ast.Name) and node.func.id in CALLS:
             s, e = self.span(node.func)
             self.out.append((s, e, CALLS[node.func.id], "%s -> %s" % (node.func.id, CALLS[node.func.id]), node.lineno))
